@@ -190,14 +190,22 @@ class Merge(Expr):
     @property
     def _bcast_left(self):
         if self.operand("_npartitions") is not None:
-            if self.broadcast_side == "right":
+            # BroadcastJoin derives the broadcast side from the partition
+            # counts: only honour the hint if it cannot flip that side
+            if (
+                self.broadcast_side == "right"
+                and self._npartitions >= self.right.npartitions
+            ):
                 return Repartition(self.left, new_partitions=self._npartitions)
         return self.left
 
     @property
     def _bcast_right(self):
         if self.operand("_npartitions") is not None:
-            if self.broadcast_side == "left":
+            if (
+                self.broadcast_side == "left"
+                and self._npartitions > self.left.npartitions
+            ):
                 return Repartition(self.right, new_partitions=self._npartitions)
         return self.right
 
